@@ -21,12 +21,19 @@ MANIFEST = {
              "passes through exactly the states of the independent table interpreter (Spec/TableInterp.v). Tie: gen_py T equals the "
              "abstraction (indentation + statement kind per line) of the real generated __init__/process* code; parse_indent agrees with "
              "CPython's ast.parse (also on perturbed indentation); CTransitionTableModel vs Model/TTable.v; the real modules are imported in a "
-             "subprocess and driven through Trigger<Event> under a tracing controller subclass and compared with the interpreter."),
+             "subprocess and driven through Trigger<Event> under a tracing controller subclass and compared with the interpreter. "
+             "ENGINE BRIDGE (C08_sem_engine_full, C08_sem_engine, C08_block_structure_engine, C08_ref_reads, C08_init_reads, C08_wf_table_admitted): for every well-formed table the "
+             "file the engine model's pipeline writes from the State Processing region of the SHIPPED template (Model/PyRender.py_proc16: the "
+             "lines of Gen/Templates.v from def process on, read into the template syntax of C16, checked to render back and to lie in "
+             "in_grammar16) is a sequence of lines that read one by one (reads: indentation ++ Python statement of the abstract atom; blank / "
+             "comment / print lines recognised) as the process part of gen_py, which then parses and executes the table; no per-table side "
+             "condition (wf_table implies the engine theorem's name conditions). The real module's text from def process on is compared with "
+             "ref16 of that region on every case."),
     "note": ("Proved about the model of the template as repaired by two fix: commits (unguarded rows get 'if True:'; process() ends in "
              "NoTransition). Modelled, not verified: CPython executing if/return/method calls as the big-step semantics says; the construction of the event object in "
              "Trigger<Event> (that Trigger calls process(event) synchronously exactly once when StateMachineThread=0 is now part of the theorem, "
              "C08_sem_triggered, from the IR of Gen/PySync.v; threaded delivery is C11); isinstance on distinct event classes = name equality. "
-             "Names that collide with identifiers the template itself uses (Enum, EventStartup, NoTransition, ...) are outside the proof's name "
+             "The three behaviour-deciding constructor lines (def, entry callback and assignment of <<<STATE_0>>>; selected from the shipped file like translator/pytmpl.py does: PyRender.py_init16) go through the engine too (C08_sem_engine_full, C08_init_reads; filterInitialState is part of the C16 grammar), compared with the real text on every case. The process region and the constructor lines are run through the engine model as templates of their own (the whole shipped file is outside the C16 grammar: SIGNATURE, TTT_BOOST_SML, user tags); that the real engine produces the same text inside the whole file is observed on every case, not proved. Names that collide with identifiers the template itself uses (Enum, EventStartup, NoTransition, ...) are outside the proof's name "
              "abstraction; they are probed on the real code."),
 }
 RULE = ("random well-formed tables biased to several rows per (state,event) mixing guarded rows and unguarded fallbacks in both orders, "
@@ -292,6 +299,26 @@ def one_case(ctx, table, spec, evs_with_args, bits, correspond=True):
             cp = cpython_parses(src)
             if mp != cp:
                 ctx.tie_broken("correspondence PySM.parse_indent vs CPython ast.parse on the generated module", {"table": table, "model": mp, "cpython": cp})
+        # the text: the real file from "def process" on is the reference expansion (Spec/RefExpand16.ref16, = the engine by
+        # C16_engine_is_ref_table) of the shipped region in the Coq template syntax, whose lines read as gen_py (C08_engine_reads)
+        start = src.find("    def process(self, event) -> None:\n")
+        rows = [list(r) for r in table]
+        if start < 0:
+            ctx.tie_broken("generated module has no def process", {"table": table})
+        else:
+            ref = ctx.km.call("py.proc_ref", rows, [], [], []).decode("utf-8", "surrogateescape")
+            ctx.count("process_region_text_compared")
+            if src[start:] != ref:
+                ctx.tie_broken("the process region of the generated module differs from ref16 of the shipped region (Model/PyRender.py_proc16)",
+                               {"table": table, "real": src[start:][:1500], "ref16": ref[:1500]})
+            iref = ctx.km.call("py.init_ref", rows, [], [], []).decode("utf-8", "surrogateescape").split("\n")
+            ilines = [l for l in src[:start].split("\n") if l == "    def __init__(self, controller):" or ("self.context.On" in l and "Entry(EventStartup())" in l)
+                      or l.startswith("        self.currentState = ")]
+            if ilines + [""] != iref:
+                ctx.tie_broken("the constructor's initial-state lines of the generated module differ from ref16 of Model/PyRender.py_init16",
+                               {"table": table, "real": ilines, "ref16": iref})
+            if ctx.km.call("py.proc_reads", rows, [], [], []) != b"1":
+                ctx.tie_broken("py_proc_reads false although C08_ref_reads is proved", {"table": table})
         # the model's own run agrees with the spec on this case (re-evaluates the theorem's instance outside Coq)
         evs = [e for e, _a in evs_with_args]
         r = ctx.km.call("run_py", table, evs, smlib.bits_arg(bits))
